@@ -1,4 +1,4 @@
-"""C08 - message frames survive any chunking (E1).  Concurrent senders: see DESIGN.md (E2 part)."""
+"""C08 - message frames survive any chunking (E1) and never interleave under concurrent senders (E2)."""
 
 from __future__ import annotations
 
@@ -96,10 +96,30 @@ def signature(ob: Obligation, cex: dict, detail: str) -> str:
     return f"C08:{m.get('write', m.get('transport'))}-{m.get('read', '')}:{detail.split(':')[0]}"
 
 
+def sc_senders(transport="socket", nsenders=2):
+    from vlib import e2
+
+    return e2.SenderScenario(transport, nsenders)
+
+
+def e2_specs(tier):
+    out = []
+    for transport in ("popen", "socket"):
+        for n in ((2, 3) if tier == "thorough" else (2,)):
+            out.append({"module": "props.c08", "factory": "sc_senders", "args": {"transport": transport, "nsenders": n}, "K": 0,
+                        "name": f"concurrent_senders[{transport},{n}]", "timeout": 3000 if tier == "thorough" else 600, "validate": 3, "depth_probes": 200})
+    return out
+
+
 def run(tier: str) -> Outcome:
     fns = describe_functions([gb.Message.to_io, gb.Message.from_io, gb.Popen2IO.read, gb.Popen2IO.write, gateway_socket.SocketIO.read,
                                gateway_socket.SocketIO.write, gateway_io.ProxyIO.read, gateway_io.ProxyIO.write, gb.ChannelFileRead.read])
-    return e1.run_e1(
+    from vlib import e2run
+
+    e2res = e2run.run_scenarios(e2_specs(tier))
+    e2out = e2run.outcome_from("C08", tier, e2res, describe_functions([gb.BaseGateway._send, gb.Message.to_io, gb.Popen2IO.write, gateway_socket.SocketIO.write]),
+                               [], "", [], "", "C08")
+    out = e1.run_e1(
         "C08", tier, build(tier), signature, fns,
         stubs=[
             "PipeFile / FakeSocket over ChunkSource: read(n)/recv(n) return 1..n of the next bytes as dictated by the symbolic chunk script, b'' at end (pipe/socket contract); write+flush / sendall append",
@@ -111,15 +131,33 @@ def run(tier: str) -> Outcome:
                 "(all 4 combinations) under a symbolic chunk script for the first 3 (thorough 5) low-level reads (1 byte / all, or k in 1..9) "
                 "and full reads afterwards; proxied: stream cut into channel items at 1-2 (thorough 3) symbolic offsets"),
         outside=[
-            "frame atomicity under concurrent senders (schedule-quantified part of the statement): not decided by this E1 check",
+            "more than 3 concurrent senders; frames split into more than two parts by the kernel (two parts already exhibit every interleaving pattern of one frame with another)",
             "payloads beyond a few bytes (the read loops are length-agnostic `while len(buf) < n` loops)",
             "real kernels' pipe/socket behaviour",
         ],
         explanation=("bounded symbolic execution of the real Message.to_io/from_io over the real Popen2IO/SocketIO/ProxyIO+ChannelFileRead "
                      "adapters with scripted low-level objects: message fields and the chunking are symbolic; oracle: wire bytes equal the "
-                     "reference framing, decoded (type, id, payload) equal the sent ones for every chunking, EOFError exactly at the end"),
+                     "reference framing, decoded (type, id, payload) equal the sent ones for every chunking; schedule part (E2, bounded model checking): "
+                     "2 (thorough 3) threads call the real BaseGateway._send concurrently down to the low-level write contract (socket.sendall = partial sends "
+                     "without atomicity; BufferedWriter.write+flush = one atomic append): the wire is a concatenation of whole frames in every schedule"),
+        extra_coverage={"e2_concurrent_senders": e2out.coverage},
     )
+    out.violations += e2out.violations
+    out.harness_errors += e2out.harness_errors
+    out.inconclusive += e2out.inconclusive
+    out.coverage["obligations"] += e2out.coverage.get("obligations", 0)
+    out.coverage["discharged"] += e2out.coverage.get("discharged", 0)
+    out.assumptions += ["E2 part: socket.sendall(data) is a loop of partial sends with no atomicity between them (two separately scheduled parts); "
+                        "BufferedWriter.write(data)+flush() appends data in one piece (the buffered object's internal lock); ProxyIO.write is one Channel.send"]
+    return out
 
 
 def replay(rep: dict):
+    if rep.get("engine") == "E2":
+        from vlib import e2run
+
+        sc = sc_senders(**rep["scenario"]["args"])
+        ghost, done, blocked, sched = sc.replay([tuple(x) for x in rep["order"]], mode=rep.get("mode", "sync"))
+        hits = e2run.real_bad(sc.bad, ghost, done, blocked)
+        return bool(hits) and not sched.diverged, f"hits={hits} wire={ghost.get('wire')} diverged={sched.diverged}"
     return e1.replay_entry(rep)
